@@ -141,6 +141,11 @@ def check_state(w, hist):
         if len(viol) < 4:
             viol.append({"subcheck": sub, "case": {"cfg": w.cfgname, "hist": hist}, "observed": obs, "expected": exp,
                          "what": "config %s after %r: %s" % (w.cfgname, hist, what)})
+    # the coverage getters fill the implementation's caches: query first, then take the reference key
+    inst_cov = []
+    for shape, cg in list(w.insts) + [("other", w.other)]:
+        with common.silenced():
+            inst_cov.append((cg.get_model().typename, cg.get_model().type_cg, cg.get_coverage(), cg.get_inst_coverage()))
     k0 = w.key()
     mem = mem_struct(w)
     nreps = 0
@@ -154,10 +159,6 @@ def check_state(w, hist):
     if norm(rs) != norm(mem):
         bad("report_model_differs", "report model %r differs from the in-memory coverage %r" % (rs, mem), norm(rs), norm(mem))
     # ---- percentages of the report model
-    inst_cov = []
-    for shape, cg in list(w.insts) + [("other", w.other)]:
-        with common.silenced():
-            inst_cov.append((cg.get_model().typename, cg.get_model().type_cg, cg.get_coverage(), cg.get_inst_coverage()))
     from vsc.impl.coverage_registry import CoverageRegistry
     types = [t for lst in CoverageRegistry.inst().covergroup_type_m.values() for t in lst]
     if len(types) == len(rm.covergroups):
@@ -253,6 +254,8 @@ def run(res, only=None):
     for name in c12.CONFIGS:
         if only and only != name:
             continue
+        if c12.CONFIGS[name].get('no_c13'):
+            continue      # cross weights: the PyUCIS report builder does not read a cross's weight (outside pyvsc)
         stats, viols, cnts = bfs.search(EXPAND[name], c12.replay_hist(name, []).key(), depth, seed=res.seed,
                                         max_states=(20000 if res.tier == "quick" else 100000))
         allstats[name] = stats
